@@ -363,10 +363,10 @@ Qed.
 
 (** the points an extension appends below / above (after the resolution cap) *)
 Definition ext_lo (s : st) (newMin : Q) (pLo : nat) : list Q :=
-  let p := Nat.min pLo (fit (rmin s - newMin) (rmax s - rmin s)) in
+  let p := fit pLo (rmin s - newMin) (rmax s - rmin s) in
   if Qlt_bool newMin (rmin s) && (0 <? p)%nat then linspace_open newMin (rmin s) p else [].
 Definition ext_hi (s : st) (newMax : Q) (pHi : nat) : list Q :=
-  let p := Nat.min pHi (fit (newMax - rmax s) (rmax s - rmin s)) in
+  let p := fit pHi (newMax - rmax s) (rmax s - rmin s) in
   if Qlt_bool (rmax s) newMax && (0 <? p)%nat then tl (linspace (rmax s) newMax (S p)) else [].
 
 (** with a table (whose values are paired with its abscissae) an extension interpolates the
@@ -387,8 +387,8 @@ Lemma extend_total s newMin newMax pLo pHi : TInv s -> hasT s = true ->
 Proof.
   intros HT Hh. rewrite extend_unfold by assumption. unfold ext_lo, ext_hi.
   destruct (extend_points_incr s newMin newMax
-              (Nat.min pLo (fit (rmin s - newMin) (rmax s - rmin s)))
-              (Nat.min pHi (fit (newMax - rmax s) (rmax s - rmin s))) HT Hh) as [Hi _].
+              (fit pLo (rmin s - newMin) (rmax s - rmin s))
+              (fit pHi (newMax - rmax s) (rmax s - rmin s)) HT Hh) as [Hi _].
   destruct (HT Hh) as [_ [Hl [_ [_ [_ [Hf _]]]]]].
   match goal with |- context [interpolate fin s ?X] =>
     destruct (interpolate_cases s X) as [[_ [_ E]]|[N _]] end.
@@ -1139,6 +1139,260 @@ Proof.
   - rewrite <- E. cbn [map]. rewrite scatter_nil. reflexivity.
   - unfold twice. rewrite !evalOOB_pure3 by assumption. rewrite fd_columns_spec, E. reflexivity.
 Qed.
+(* ------------------------------------------------------------------------------------ *)
+(** * Reduced form of the stencil tags: what each finite-difference point IS *)
+
+(** a stencil point of an out-of-range derivative, in the vocabulary of the property: direct
+    value, spline at the stored end, spline inside its knots, or EXTRAPOLATING spline (never
+    the nan of a non-extrapolating one) *)
+Definition oob_red (s : st) (q : Q) : tag :=
+  if mode_eqb (mlo s) NONE && mode_eqb (mhi s) NONE then dirtag q
+  else if Qle_bool (rmax s) q then
+    match mhi s with
+    | NONE => dirtag q | CONSTANT => Spl 0 KIn (rmax s)
+    | FUNCTION => if Qle_bool q (rmax s) then Spl 0 KIn q else Spl 0 KExt q | ERROR => Uninit
+    end
+  else if Qle_bool q (rmin s) then
+    match mlo s with
+    | NONE => dirtag q | CONSTANT => Spl 0 KIn (rmin s)
+    | FUNCTION => if Qle_bool (rmin s) q then Spl 0 KIn q else Spl 0 KExt q | ERROR => Uninit
+    end
+  else Spl 0 KIn q.
+
+Lemma oob3_red s q : TInv s -> hasT s = true -> oob3 s q = oob_red s q.
+Proof.
+  intros HT Hh. pose proof (range_nonempty s HT Hh) as Hr.
+  destruct (HT Hh) as [_ [_ [_ [_ [Hex _]]]]].
+  unfold oob3, oob_red. destruct (mode_eqb (mlo s) NONE && mode_eqb (mhi s) NONE); [reflexivity|].
+  destruct (Qle_bool (rmax s) q) eqn:Eu.
+  - apply Qle_bool_iff in Eu. unfold side_tag. destruct (mhi s) eqn:Em; try reflexivity.
+    + apply splineAt_in; auto. lra.
+    + destruct (Qle_bool q (rmax s)) eqn:E2.
+      * apply Qle_bool_iff in E2. apply splineAt_in; auto. lra.
+      * apply Qle_bool_false in E2. rewrite splineAt_out by auto. rewrite Hex.
+        try rewrite Em. cbn [is_fun]. rewrite ?orb_true_r. reflexivity.
+  - apply Qle_bool_false in Eu. destruct (Qle_bool q (rmin s)) eqn:El.
+    + apply Qle_bool_iff in El. unfold side_tag. destruct (mlo s) eqn:Em; try reflexivity.
+      * apply splineAt_in; auto. lra.
+      * destruct (Qle_bool (rmin s) q) eqn:E2.
+        -- apply Qle_bool_iff in E2. apply splineAt_in; auto. lra.
+        -- apply Qle_bool_false in E2. rewrite splineAt_out by auto. rewrite Hex.
+           try rewrite Em. cbn [is_fun orb]. reflexivity.
+    + apply Qle_bool_false in El. apply splineAt_in; auto. lra.
+Qed.
+
+Definition dspec_red (s : st) (n : nat) (dx q : Q) : dtag :=
+  if inrange s q then DOne (Spl n KIn q)
+  else DFD (map (fun z => oob_red s (Qred (q + inject_Z z * dx))) (stencil n)).
+
+Lemma dspec_reduce s n dx pts : TInv s -> hasT s = true ->
+  map (dspec s n dx) pts = map (dspec_red s n dx) pts.
+Proof.
+  intros HT Hh. apply map_ext. intro q. unfold dspec, dspec_red, fd_tag.
+  destruct (inrange s q); [reflexivity|]. f_equal. apply map_ext. intro z. apply oob3_red; assumption.
+Qed.
+
+(* ------------------------------------------------------------------------------------ *)
+(** * Dispatch for EVERY history, adaptive bookkeeping on: the lower side is answered in the
+      state of the call, the upper side in the state the lower side's direct evaluations left
+      behind (an adaptive update may have rebuilt the table in between) *)
+
+Lemma side_form s m edge (mk : Q -> bool) pts (f : Q -> tag) s' ts :
+  side fin s m edge (map mk pts) pts (map f pts) = (s', Ok ts) ->
+  ts = map (fun q => if mk q then side_tag s m edge q else f q) pts.
+Proof.
+  unfold side. destruct (existsb (fun b => b) (map mk pts)) eqn:E.
+  - destruct m.
+    + intro H; discriminate H.
+    + destruct (evalDirect fin s (select (map mk pts) pts)) as [s1 [tg|e]] eqn:Ed;
+        intro H; [|discriminate H]. injection H as _ <-.
+      apply evalDirect_tags in Ed. subst tg. apply scatter_map.
+    + intro H. injection H as _ <-. apply (scatter_map mk (fun _ => splineAt s 0 edge) f).
+    + intro H. injection H as _ <-. apply scatter_map.
+  - intro H. injection H as _ <-. apply map_ext_in. intros q Hq.
+    rewrite (existsb_map_false mk pts E q Hq). reflexivity.
+Qed.
+
+(** a side changes the state only through direct evaluations with adaptive bookkeeping on *)
+Lemma side_state s m edge mask pts acc : (m <> NONE \/ adaptive s = false) ->
+  fst (side fin s m edge mask pts acc) = s.
+Proof.
+  intro H. unfold side. destruct (existsb _ mask); [|reflexivity].
+  destruct m; try reflexivity. destruct H as [H|H]; [congruence|].
+  rewrite evalDirect_pure by exact H. reflexivity.
+Qed.
+
+(** table and modes survive every internal step, successful or not *)
+Lemma interpolate2_keeps_always s X Y : hasT s = true -> Keeps s (fst (interpolate2 fin s X Y)).
+Proof.
+  intro Hh. destruct (interpolate2_cases s X Y) as [[_ [_ E]]|[_ E]]; rewrite E; cbn [fst];
+    repeat split; assumption.
+Qed.
+
+Lemma extend_keeps_always s a b pl ph : hasT s = true -> Keeps s (fst (extend fin s a b pl ph)).
+Proof.
+  intro Hh. unfold extend. rewrite Hh. cbn [negb].
+  match goal with |- context [interpolate2 fin s ?X ?Y] =>
+    pose proof (interpolate2_keeps_always s X Y Hh) as K;
+    destruct (interpolate2 fin s X Y) as [s1 [[]|e]] end; cbn [fst] in *; [|exact K].
+  destruct (adaptive s1); exact K.
+Qed.
+
+Lemma schedule_keeps_always s pts : hasT s = true -> Keeps s (fst (schedule fin s pts)).
+Proof.
+  intro Hh. unfold schedule. destruct (usort (filter fin pts)) as [|x xv];
+    [repeat split; assumption|].
+  match goal with |- context [adaptiveUpdate fin ?S1] => set (s1 := S1) end.
+  destruct (cfg_thr s1 <=? cnt s1)%nat; [|repeat split; assumption].
+  unfold adaptiveUpdate. change (hasT s1) with (hasT s). rewrite Hh.
+  match goal with |- context [extend fin ?S0 ?A ?B ?C ?D] =>
+    exact (extend_keeps_always S0 A B C D Hh) end.
+Qed.
+
+Lemma evalDirect_keeps_always s pts : hasT s = true -> Keeps s (fst (evalDirect fin s pts)).
+Proof.
+  intro Hh. unfold evalDirect. destruct (adaptive s); [|repeat split; assumption].
+  pose proof (schedule_keeps_always s pts Hh) as K.
+  destruct (schedule fin s pts) as [s' [u|e]]; exact K.
+Qed.
+
+Lemma side_keeps_always s m edge mask pts acc : hasT s = true ->
+  Keeps s (fst (side fin s m edge mask pts acc)).
+Proof.
+  intro Hh. unfold side. destruct (existsb _ mask); [|repeat split; assumption].
+  destruct m; try (repeat split; assumption).
+  pose proof (evalDirect_keeps_always s (select mask pts) Hh) as K.
+  destruct (evalDirect fin s (select mask pts)) as [s' [u|e]]; exact K.
+Qed.
+
+Definition lower_spec (s : st) (q : Q) : tag :=
+  match mlo s with
+  | NONE => dirtag q | CONSTANT => Spl 0 KIn (rmin s) | FUNCTION => Spl 0 KExt q | ERROR => Uninit
+  end.
+(** [s1]: the state in which the upper side is answered *)
+Definition upper_spec (s1 : st) (q : Q) : tag :=
+  match mhi s1 with
+  | NONE => dirtag q | CONSTANT => Spl 0 KIn (rmax s1)
+  | FUNCTION => if inrange s1 q then Spl 0 KIn q else Spl 0 KExt q | ERROR => Uninit
+  end.
+Definition all_spec (s s1 : st) (q : Q) : tag :=
+  if inrange s q then Spl 0 KIn q
+  else if Qle_bool (rmax s) q then upper_spec s1 q else lower_spec s q.
+
+Lemma upper_tag_spec s1 q : TInv s1 -> hasT s1 = true ->
+  side_tag s1 (mhi s1) (rmax s1) q = upper_spec s1 q.
+Proof.
+  intros HT Hh. pose proof (range_nonempty s1 HT Hh) as Hr.
+  destruct (HT Hh) as [_ [_ [_ [_ [Hex _]]]]].
+  unfold side_tag, upper_spec. destruct (mhi s1) eqn:Em; try reflexivity.
+  - apply splineAt_in; auto. lra.
+  - destruct (inrange s1 q) eqn:Ei.
+    + apply splineAt_in; auto. apply inrange_iff; exact Ei.
+    + rewrite splineAt_out by (auto using inrange_false). rewrite Hex.
+      try rewrite Em. cbn [is_fun]. rewrite ?orb_true_r. reflexivity.
+Qed.
+
+Lemma lower_tag_spec s q : TInv s -> hasT s = true -> q < rmin s ->
+  side_tag s (mlo s) (rmin s) q = lower_spec s q.
+Proof.
+  intros HT Hh Hq. pose proof (range_nonempty s HT Hh) as Hr.
+  destruct (HT Hh) as [_ [_ [_ [_ [Hex _]]]]].
+  unfold side_tag, lower_spec. destruct (mlo s) eqn:Em; try reflexivity.
+  - apply splineAt_in; auto. lra.
+  - rewrite splineAt_out by auto. rewrite Hex. try rewrite Em. cbn [is_fun orb]. reflexivity.
+Qed.
+
+Lemma evaluate_all_histories_l s sh pts s' sh' ts : Inv s -> hasT s = true ->
+  evaluate fin s true sh pts = (s', Ok (sh', ts)) ->
+  exists s1, Inv s1 /\ hasT s1 = true /\ mlo s1 = mlo s /\ mhi s1 = mhi s /\
+             ((mlo s <> NONE \/ adaptive s = false) -> s1 = s) /\
+             ts = map (all_spec s s1) pts.
+Proof.
+  intros HI Hh. pose proof HI as [HT _]. pose proof (range_nonempty s HT Hh) as Hr.
+  unfold evaluate. rewrite Hh. cbn [negb orb]. rewrite map_map.
+  set (m' := fun q => negb (inrange s q)).
+  set (base := map (fun q => if inrange s q then splineAt s 0 q else Uninit) pts).
+  (* whatever tags [T] the out-of-range points get, the result is the element-wise merge *)
+  assert (Merge : forall (T : Q -> tag) s1,
+            (forall q, inrange s q = false -> T q = if Qle_bool (rmax s) q then upper_spec s1 q
+                                                    else lower_spec s q) ->
+            scatter (map m' pts) (map T (select (map m' pts) pts)) base = map (all_spec s s1) pts).
+  { intros T s1 HTq. unfold base. rewrite scatter_map. apply map_ext. intro q. unfold m', all_spec.
+    destruct (inrange s q) eqn:Eq; cbn [negb].
+    - apply splineAt_in; auto. apply inrange_iff; exact Eq.
+    - apply HTq; exact Eq. }
+  destruct (select (map m' pts) pts) as [|o out] eqn:Es.
+  - intro H. injection H as <- <- <-. exists s.
+    split; [exact HI|]. split; [exact Hh|]. split; [reflexivity|]. split; [reflexivity|].
+    split; [intros _; reflexivity|].
+    rewrite <- (Merge (fun q => if Qle_bool (rmax s) q then upper_spec s q else lower_spec s q) s)
+      by reflexivity.
+    cbn [map]. rewrite scatter_nil. reflexivity.
+  - destruct (evalOOB fin s (o :: out)) as [s2 [ts0|e]] eqn:Eo; intro H; [|discriminate H].
+    injection H as <- <- <-. rewrite <- Es in *.
+    assert (Hout : forall q, In q (select (map m' pts) pts) -> q < rmin s \/ rmax s < q).
+    { intros q Hq. apply select_In in Hq. destruct Hq as [Hq _]. unfold m' in Hq.
+      apply negb_true_iff in Hq. apply inrange_false; exact Hq. }
+    unfold evalOOB in Eo.
+    destruct (mode_eqb (mlo s) ERROR && mode_eqb (mhi s) ERROR); [discriminate Eo|].
+    rewrite Hh in Eo. cbn [negb orb] in Eo.
+    destruct (mode_eqb (mlo s) NONE && mode_eqb (mhi s) NONE) eqn:EN.
+    + (* both NONE: everything outside is evaluated directly *)
+      apply andb_true_iff in EN. destruct EN as [E1 E2]. apply mode_eqb_eq in E1, E2.
+      pose proof (evalDirect_tags _ _ _ _ Eo) as ->.
+      pose proof (evalDirect_good s (select (map m' pts) pts) HI) as G.
+      pose proof (evalDirect_keeps_always s (select (map m' pts) pts) Hh) as K.
+      rewrite Eo in G, K. cbn [fst] in G, K. destruct K as [K1 [K2 K3]].
+      exists s2. split; [exact (proj1 G)|]. split; [exact K1|]. split; [exact K2|]. split; [exact K3|].
+      split.
+      * intros [Hn|Ha]; [congruence|]. rewrite evalDirect_pure in Eo by exact Ha. congruence.
+      * apply Merge. intros q _. unfold upper_spec, lower_spec. rewrite K3, E1, E2.
+        destruct (Qle_bool (rmax s) q); reflexivity.
+    + match type of Eo with context [side fin s ?m ?e ?k ?p ?a] =>
+        pose proof (side_good s m e k p a HI) as G1;
+        pose proof (side_keeps_always s m e k p a Hh) as K1;
+        pose proof (side_state s m e k p a) as St1;
+        destruct (side fin s m e k p a) as [s1 [acc1|e1]] eqn:E1 end; [|discriminate Eo].
+      cbn [fst] in G1, K1, St1. destruct K1 as [Hh1 [Km1 Km2]].
+      apply (side_form s (mlo s) (rmin s) (fun q => Qle_bool q (rmin s))) in E1. subst acc1.
+      apply (side_form s1 (mhi s1) (rmax s1) (fun q => Qle_bool (rmax s) q)) in Eo. subst ts0.
+      exists s1. split; [exact (proj1 G1)|]. split; [exact Hh1|]. split; [exact Km1|].
+      split; [exact Km2|]. split; [exact St1|].
+      rewrite <- (Merge (fun q => if Qle_bool (rmax s) q then upper_spec s1 q
+                                  else if Qle_bool q (rmin s) then side_tag s (mlo s) (rmin s) q
+                                  else if Qle_bool q (rmin s) || Qle_bool (rmax s) q then Uninit
+                                  else splineAt s 0 q) s1).
+      * f_equal. apply map_ext_in. intros q Hq.
+        destruct (Qle_bool (rmax s) q); [|reflexivity].
+        apply upper_tag_spec; [exact (proj1 (proj1 G1))|exact Hh1].
+      * intros q Hq. apply inrange_false in Hq.
+        destruct (Qle_bool (rmax s) q) eqn:Eu; [reflexivity|]. apply Qle_bool_false in Eu.
+        assert (Hlt : q < rmin s) by (destruct Hq; lra).
+        replace (Qle_bool q (rmin s)) with true by (symmetry; apply Qle_bool_iff; lra).
+        apply lower_tag_spec; assumption.
+Qed.
+
+(** which rows an operation keeps: a user table / a file in ANY order, and an extension *)
+Lemma interpolate_rows s xs s' : interpolate fin s xs = (s', Ok tt) ->
+  tab s' = filter fin xs /\ vals s' = filter fin xs /\ incr (filter fin xs).
+Proof.
+  intro H. destruct (interpolate_cases s xs) as [[Hi [_ E]]|[_ E]]; rewrite E in H; inversion H; subst.
+  cbn. auto.
+Qed.
+
+Lemma extend_rows s a b pLo pHi s' : TInv s -> hasT s = true ->
+  extend fin s a b pLo pHi = (s', Ok tt) ->
+  tab s' = filter fin (ext_lo s a pLo) ++ tab s ++ filter fin (ext_hi s b pHi) /\ vals s' = tab s'.
+Proof.
+  intros HT Hh. rewrite extend_unfold by assumption.
+  destruct (HT Hh) as [_ [_ [_ [_ [_ [Hf _]]]]]].
+  match goal with |- context [interpolate fin s ?X] =>
+    destruct (interpolate_cases s X) as [[_ [_ E]]|[_ E]]; rewrite E end; intro H;
+    [|discriminate H].
+  injection H as <-. cbn [adaptive set_table].
+  destruct (adaptive s); cbn [tab vals set_adapt set_table];
+    rewrite !filter_app, (filter_all fin (tab s) Hf); auto.
+Qed.
 End Props.
 
 (* ------------------------------------------------------------------------------------ *)
@@ -1246,6 +1500,47 @@ Theorem derivative_dispatch fin s n sh pts dx pos : reachable fin s -> hasT s = 
 Proof. intros R. apply deriv_spec_l. exact (reachable_inv fin s R). Qed.
 Print Assumptions derivative_dispatch.
 
+(** the same with every stencil point reduced to the property's vocabulary: a FUNCTION side is
+    an EXTRAPOLATING spline (never nan), a CONSTANT side the spline at the stored end, a stencil
+    point reaching back inside the table the spline inside its knots *)
+Theorem derivative_dispatch_reduced fin s n sh pts dx pos : reachable fin s -> hasT s = true ->
+  adaptive s = false -> mlo s <> ERROR -> mhi s <> ERROR -> (n = 1 \/ n = 2)%nat ->
+  derivative fin s n true sh pts dx pos =
+  (s, Ok (oshape (cfg_k s) sh, map (dspec_red fin s n dx) pts)).
+Proof.
+  intros R Hh Ha Hlo Hhi Hn. pose proof (reachable_inv fin s R) as HI.
+  rewrite (deriv_spec_l fin s n sh pts dx pos HI Hh Ha Hlo Hhi Hn).
+  rewrite (dspec_reduce fin s n dx pts (proj1 HI) Hh). reflexivity.
+Qed.
+Print Assumptions derivative_dispatch_reduced.
+
+(** DISPATCH FOR EVERY HISTORY (adaptive bookkeeping on or off): a successful evaluation is the
+    element-wise map of the specification, the lower side judged in the state of the call and
+    the upper side in the (valid, same-modes) state [s1] left by the lower side's direct
+    evaluations; [s1] is the state of the call unless the lower mode is NONE and adaptive
+    bookkeeping is on *)
+Theorem dispatch_all_histories fin s sh pts s' sh' ts : reachable fin s -> hasT s = true ->
+  evaluate fin s true sh pts = (s', Ok (sh', ts)) ->
+  exists s1, Inv fin s1 /\ hasT s1 = true /\ mlo s1 = mlo s /\ mhi s1 = mhi s /\
+             ((mlo s <> NONE \/ adaptive s = false) -> s1 = s) /\
+             ts = map (all_spec fin s s1) pts.
+Proof. intros R. apply evaluate_all_histories_l. exact (reachable_inv fin s R). Qed.
+Print Assumptions dispatch_all_histories.
+
+(** rows kept by a user-supplied table or a file, rows in ANY order: exactly the finite ones, in
+    the given order, each value with its abscissa -- accepted only if that order is strictly
+    increasing; and by an extension: old rows + the finite rows of the two new blocks *)
+Theorem user_table_rows fin s xs s' : interpolate fin s xs = (s', Ok tt) ->
+  tab s' = filter fin xs /\ vals s' = filter fin xs /\ incr (filter fin xs).
+Proof. apply interpolate_rows. Qed.
+Print Assumptions user_table_rows.
+
+Theorem extension_rows fin s a b pLo pHi s' : reachable fin s -> hasT s = true ->
+  extend fin s a b pLo pHi = (s', Ok tt) ->
+  tab s' = filter fin (ext_lo s a pLo) ++ tab s ++ filter fin (ext_hi s b pHi) /\ vals s' = tab s'.
+Proof. intros R. apply extend_rows. exact (proj1 (reachable_inv fin s R)). Qed.
+Print Assumptions extension_rows.
+
 Theorem derivative_inrange fin s n sh pts dx pos s' sh' ts i q : reachable fin s -> hasT s = true ->
   (n = 1 \/ n = 2)%nat -> derivative fin s n true sh pts dx pos = (s', Ok (sh', ts)) ->
   nth_error pts i = Some q -> inrange s q = true -> nth_error ts i = Some (DOne (Spl n KIn q)).
@@ -1312,6 +1607,20 @@ Proof.
 Qed.
 Print Assumptions witness.
 
+(** user tables: one glued from two pieces is rejected and the old table kept; a file with other
+    abscissae replaces it; a missing file changes nothing; an extension by less than 1e-8 of the
+    table width appends nothing *)
+Example witness_user_tables :
+  let s0 := run fin_ex (init 1 3 10 false) [NewTable 0 1 5] in
+  snd (step fin_ex s0 (FromValues [1; 1 # 2; 0; 5 # 4])) = OUnit (Err EValue) /\
+  tab (fst (step fin_ex s0 (FromValues [1; 1 # 2; 0; 5 # 4]))) = tab s0 /\
+  tab (fst (step fin_ex s0 (ReadFile [0; 1 # 2; 1; 2]))) = [0; 1 # 2; 1] /\
+  vals (fst (step fin_ex s0 (ReadFile [0; 1 # 2; 1; 2]))) = [0; 1 # 2; 1] /\
+  fst (step fin_ex s0 ReadMissing) = s0 /\
+  tab (fst (step fin_ex s0 (Extend (0 - (1 # 1000000000000)) 1 4 4))) = tab s0.
+Proof. vm_compute. repeat split; reflexivity. Qed.
+Print Assumptions witness_user_tables.
+
 (* ------------------------------------------------------------------------------------ *)
 (** * Facts read off the source on this run agree with the model (kept last: a change of the
       source outline must not hide the theorems above) *)
@@ -1319,6 +1628,7 @@ Theorem facts_agree :
   src_stencil1 = stencil 1 /\ src_stencil2 = stencil 2 /\ src_fd_order = 4%nat /\
   src_fd_call_plain = true /\ src_modes_before_rebuild = true /\ src_range_from_filtered = true /\
   src_flag_is_function_mode = true /\ src_append_frac_table == 1 # 5 /\
-  src_append_frac_notable == 1 # 2 /\ src_skip_single_point = true.
+  src_append_frac_notable == 1 # 2 /\ src_skip_single_point = true /\
+  src_resolution == 1 # 100000000 /\ src_extend_no_arange = true.
 Proof. vm_compute. repeat split; reflexivity || discriminate. Qed.
 Print Assumptions facts_agree.
